@@ -422,7 +422,8 @@ func (dr *DialogueRunner) RestoreAt(snapshot *Snapshot) error {
 		return fmt.Errorf("dialogue does not contain a node with title [%s]", snapshot.CurrentNode)
 	}
 
-	dr.visitedNodes = snapshot.VisitedNodes
+	dr.visitedNodes = copyVisitedNodes(snapshot.VisitedNodes)
+	dr.variableSnapshot = copyVariables(snapshot.Variables)
 	dr.variableStorer.Clear()
 	for variable, value := range snapshot.Variables {
 		if value.Boolean != nil {
